@@ -20,6 +20,9 @@ __CPROVER_assigns(*sinx, *cosx)
 __CPROVER_ensures((isnan(x) || isinf(x)) ? (isnan(SC_S) && isnan(SC_C)) : (!isnan(SC_S) && !isnan(SC_C)))
 /*@ clause post.range src=property props=C16 */
 __CPROVER_ensures(isnan(x) || isinf(x) || (-1.0 <= SC_S && SC_S <= 1.0 && -1.0 <= SC_C && SC_C <= 1.0))
+/*@ clause post.not_both_zero src=property props=C16 */
+/* a point of the unit circle: sine and cosine never vanish together (callers divide one by the other: tand) */
+__CPROVER_ensures(isnan(x) || isinf(x) || !(SC_S == 0 && SC_C == 0))
 /*@ clause post.multiples_of_90 src=property props=C16 only=enforce */
 __CPROVER_ensures(!SC_EXACT || SC_D != 0 ||
    (SC_K == 0 ? (SC_S == 0 && SC_C == 1) : SC_K == 1 ? (SC_S == 1 && SC_C == 0) : SC_K == 2 ? (SC_S == 0 && SC_C == -1) : (SC_S == -1 && SC_C == 0)))
